@@ -60,6 +60,7 @@ from unified_planning.engines.sequential_simulator import (
     InapplicabilityReasons,
     UPSequentialSimulator,
     evaluate_quality_metric,
+    evaluate_quality_metric_in_final_state,
 )
 from unified_planning.model.walkers.state_evaluator import StateEvaluator
 from unified_planning.plans import SequentialPlan, PlanKind
@@ -234,14 +235,10 @@ class SequentialPlanValidator(engines.engine.Engine, mixins.PlanValidatorMixin):
                         metric.is_minimize_action_costs()
                         or metric.is_minimize_sequential_plan_length()
                     ):
-                        metric_value = evaluate_quality_metric(
-                            simulator,
-                            metric,
-                            metric_value,
-                            trace[-1],
-                            ai.action,
-                            ai.actual_parameters,
-                            trace[-1],
+                        # these metrics depend only on the final state, that is the
+                        # initial state when the plan is empty
+                        metric_value = evaluate_quality_metric_in_final_state(
+                            simulator, metric, trace[-1]
                         )
                     metric_evaluations = {metric: metric_value}
                 return ValidationResult(
